@@ -1207,6 +1207,75 @@ func ruleTimeoutParser(c *Ctx, r1, r2, r3 string) {
 			}
 		}
 		if mapTable == nil {
+			// helper form: unit, ok := unitOf(s[len(s)-1]); if !ok { return 0, false } with unitOf a pure table function
+			for _, op := range []ssa.Value{mul.X, mul.Y} {
+				ex, isEx := op.(*ssa.Extract)
+				if !isEx || ex.Index != 0 {
+					continue
+				}
+				hc, isC := ex.Tuple.(*ssa.Call)
+				if !isC {
+					continue
+				}
+				h := helperCallee(hc)
+				if h == nil || len(h.Params) != 1 || len(hc.Call.Args) != 1 || h.Signature.Results().Len() != 2 {
+					continue
+				}
+				tbl := map[int64]int64{}
+				good := true
+				allInstrsLocal(h, func(in ssa.Instruction) {
+					ret, isR := in.(*ssa.Return)
+					if !isR || len(ret.Results) != 2 {
+						return
+					}
+					for _, leafOK := range phiLeaves(ret.Results[1]) {
+						if isConstBool(leafOK, false) {
+							continue
+						}
+						if !isConstBool(leafOK, true) {
+							good = false
+							continue
+						}
+						k, isK := constInt(ret.Results[0])
+						ch := int64(-1)
+						for _, f := range factsAt(ret) {
+							x, cop, y, okF := cmpFact(f)
+							if okF && cop == token.EQL && stripConv(x) == ssa.Value(h.Params[0]) {
+								if kk, isKK := constInt(y); isKK {
+									ch = kk
+								}
+							}
+						}
+						if !isK || ch < 0 {
+							good = false
+							continue
+						}
+						tbl[ch] = k
+					}
+				})
+				okIdx := false
+				switch ix := hc.Call.Args[0].(type) {
+				case *ssa.Index:
+					okIdx = ix.X == hdr
+				case *ssa.Lookup:
+					okIdx = ix.X == hdr
+				}
+				okGuard := false
+				for _, f := range boolFactsAt(mul) {
+					if e2, isE := f.V.(*ssa.Extract); isE && e2.Tuple == ssa.Value(hc) && e2.Index == 1 && f.True {
+						okGuard = true
+					}
+				}
+				if good && okIdx && okGuard && len(tbl) > 0 {
+					mapTable = tbl
+					val = mul.X
+					if op == mul.X {
+						val = mul.Y
+					}
+				}
+			}
+		}
+		if mapTable == nil {
 			c.fail(r1, name+": unit selected by a switch", w.At(mul), "the unit operand of the multiplication is "+desc(mul.Y)+", not a value selected per unit character (switch/if chain or a constant map literal indexed by the last character and guarded by its ok result)")
 			return
 		}
